@@ -107,7 +107,14 @@ def gen_sum(rng, n, tier):
             tracks.append([[rng.randint(0, W * 2) / 2.0, rng.randint(0, H * 2) / 2.0, (None if rng.random() < 0.2 else float(rng.choice([0, 1, 2, -3, 7, 0.5, 2.25])))] for _ in range(k)])
         tracks[0][0][0] = 0.0; tracks[0][0][1] = 0.0
         tracks[0].append([float(W), float(H), 1.0])       # the bounding box is [0,W] x [0,H]
-        out.append({'tracks': tracks, 'res': [rng.choice([0.5, 1, 2, 3]), rng.choice([0.5, 1, 2, 3])], 'margin': rng.choice([0.0, 0.0, 0.25, 0.5]),
+        nodata = None
+        if rng.random() < 0.2:
+            nodata = rng.choice([-999999, -999999.0, 7])
+            for t in tracks:
+                for pnt in t:
+                    if rng.random() < 0.3:
+                        pnt[2] = float(nodata)
+        out.append({'tracks': tracks, 'nodata': nodata, 'res': [rng.choice([0.5, 1, 2, 3]), rng.choice([0.5, 1, 2, 3])], 'margin': rng.choice([0.0, 0.0, 0.25, 0.5]),
                     'order': rng.sample(OPS, len(OPS)), 'layout': rng.choice([None, None, [False, True], [True, False, True]])})
     return out
 
@@ -124,6 +131,8 @@ def run_sum(case):
         if case.get('layout') and case['layout'][len(trs) % len(case['layout'])]:
             t.createAnalyticalFeature('g', [1000.0 + i for i in range(len(pts))])      # another feature created first on this track: 'f' is not stored at the same index on every track
         t.createAnalyticalFeature('f', [nan if v is None else v for (_, _, v) in pts])
+        if case.get('nodata') is not None:
+            t.no_data_value = case['nodata']          # the marker a file reader leaves on its tracks; a measured value may be equal to it
         trs.append(t)
     col = TrackCollection(trs)
     ops = [getattr(U, o) for o in case.get('order', OPS)]          # the aggregates are computed in the order they are asked for: every order must give the same maps
